@@ -102,6 +102,9 @@ def run(tier):
     scp = vlib.run_to_file([py["python"], drv, so, sp, "@scalars", str(vlib.SEED), tier], os.path.join(chk.work, "scalars.ndjson"), timeout=1800, env=e2)
     sfiles, _ = vlib.split_file(scp, 8, chk.work, "scalars")
     chk.traces("FunTrace", sfiles, what="scalar bindings imath.clamp / lerp / lerpfactor / abs / sign / cmp / cmpt / iszero / equal (double and int overloads) and divs / mods / divp / modp, on IEEE specials (NaN, signed zeros, infinities, inverted ranges) and dyadic operands, against the definitions of the C++ functions", episodes=1)
+    lap = vlib.run_to_file([py["python"], drv, so, sp, "@linalg", str(vlib.SEED), tier], os.path.join(chk.work, "scalar-linalg.ndjson"), timeout=1800, env=e2)
+    lfiles, _ = vlib.split_file(lap, 8, chk.work, "scalarla")
+    chk.traces("LinAlgTrace", lfiles, what="scalar bindings of dot / cross / quaternion and matrix products / vector x matrix (plain and homogeneous, operator and multVecMatrix) / determinant / transposed for V2-4, M22-44, Quat in float and double, against the algebraic definitions (C05's spec)", episodes=1)
     combos = 0
     for f in files:
         combos += sum(1 for line in open(f) if line.startswith('{"e": "ref"'))
@@ -111,6 +114,6 @@ def run(tier):
     chk.assumptions += ["entry points are discovered by introspection of the module; a combination that raises TypeError on 6-element arrays is treated as non-existent",
                         "the scalar-binding comparison is made for class-element arrays (V*, Quat*, M*, C*, Box*) and the free functions; for primitive-element arrays Python's own operators are not the scalar binding and that clause is not judged",
                         "threaded schedules run each range on its own thread released by a barrier; data races that never change a result are not detected",
-                        "scalar bindings vs the C++ library: judged here for the math free functions (clamp, lerp, lerpfactor, abs, sign, cmp, cmpt, iszero, equal, divs/mods/divp/modp) against C17's definitions; for the class methods the C++ functions themselves are judged by the other properties' recorders and the bindings are taken to forward to them"]
+                        "scalar bindings vs the C++ library: judged here for the math free functions (clamp, lerp, lerpfactor, abs, sign, cmp, cmpt, iszero, equal, divs/mods/divp/modp) against C17's definitions; and for the products of the vector / matrix / quaternion classes against C05's definitions; for the remaining class methods the C++ functions themselves are judged by the other properties' recorders and the bindings are taken to forward to them"]
     return chk.finish(extra_cov={"entry_point_combinations": combos, "negative_controls_rejected": neg, "schedules": len(sch),
                                  "rule": "one sched record per (class, operator/method/function, argument-kind combination, length, schedule, threaded?)"})
